@@ -31,7 +31,9 @@ Section Agree.
   Let c := cfg_of k.
   Let init := init_of k.
   Hypothesis Hplan : k_ops k = plan c init outs.
-  Hypothesis G : good c init outs.
+  Hypothesis G0 : good c init outs.
+  Let c' := reached c outs.
+  Let G : good c' init outs := good_reached c init outs G0.
   (* the names of the observation are not this run's temporaries (they exist neither before nor after) *)
   Hypothesis Hnames : forall n, In n (names_of k) -> ~ In n (temps outs).
   (* the directory observed after the run is what the model computes *)
@@ -43,18 +45,19 @@ Section Agree.
     unfold obs_names in Hn. apply filter_In in Hn as [Hn _].
     apply states_prefix in Hs as (p & Hp & ->). rewrite Hplan in Hp.
     rewrite (Hafter n Hn), Hplan.
-    destruct (final_state c init outs G) as (A & B & C & D & _).
+    change (plan c init outs) with (plan1 c' init outs) in *.
+    destruct (final_state c' init outs G) as (A & B & C & D & _).
     destruct (in_dec String.string_dec n (names outs)) as [Ho|Ho].
     - apply in_map_iff in Ho as (o & <- & Ho).
-      destruct (atomic c init outs G p o Hp Ho) as [E|E]; rewrite E.
+      destruct (atomic c' init outs G p o Hp Ho) as [E|E]; rewrite E.
       + now rewrite opt_bytes_eqb_refl.
       + rewrite (A o Ho), opt_bytes_eqb_refl. apply orb_true_r.
     - pose proof (Hnames n Hn) as Ht.
-      destruct (in_dec String.string_dec n (victims c (exec init (write_ops (c_fd c) outs)))) as [Hv|Hv].
-      + destruct (victim_old_or_gone c init outs G p n Hp Hv) as [E|E]; rewrite E.
+      destruct (in_dec String.string_dec n (victims c' (exec init (write_ops (c_fd c') outs)))) as [Hv|Hv].
+      + destruct (victim_old_or_gone c' init outs G p n Hp Hv) as [E|E]; rewrite E.
         * now rewrite opt_bytes_eqb_refl.
         * unfold visible at 2. rewrite (C n Hv), opt_bytes_eqb_refl. apply orb_true_r.
-      + destruct (frame c init outs G p n Hp Ho Ht Hv) as [_ E]. rewrite E. now rewrite opt_bytes_eqb_refl.
+      + destruct (frame c' init outs G p n Hp Ho Ht Hv) as [_ E]. rewrite E. now rewrite opt_bytes_eqb_refl.
   Qed.
 
   Theorem agree_stable : P_stable k = true.
@@ -64,7 +67,7 @@ Section Agree.
     apply states_prefix in Hs as (p & [r Hr] & ->).
     destruct (lookup n (dir (exec init p))) as [i|] eqn:L; [|reflexivity].
     rewrite Hr. apply String.eqb_eq. symmetry.
-    apply (reader_stability c init outs G p r n i); auto.
-    rewrite <- Hr, Hplan. apply prefix_of_refl.
+    apply (reader_stability c' init outs G p r n i); auto.
+    rewrite <- Hr, Hplan. change (plan c init outs) with (plan1 c' init outs). apply prefix_of_refl.
   Qed.
 End Agree.
